@@ -10,7 +10,7 @@
    out-/in-lists are permutations, every element's key-value list is a permutation, the alias maps
    agree in both directions, every index key is present in both with permuted (value,id) lists. *)
 From Agdb Require Import Bytes DbValue Graph DbModel Search Queries Revisions UndoBase UndoObs UndoWitness
-  UndoKv UndoGraph UndoDb UndoStepsKv UndoStepsKv2 UndoMain UndoFinal.
+  UndoKv UndoGraph UndoDb UndoStepsKv UndoStepsKv2 UndoMain UndoFinal UndoLift UndoLiftEx.
 From Coq Require Import Permutation.
 Open Scope Z_scope.
 
@@ -97,6 +97,47 @@ Example C13_graph_wf_example :
   exists a, rep (gr ex_d5) a /\ ak a 3 = KEdge 1 2 /\ aout a 1 = [3] /\ ain a 2 = [3] /\ afree a = [].
 Proof. exact ex_rep. Qed.
 Print Assumptions C13_graph_wf_example.
+
+(* ---- lifting to Queries.exec / Queries.transaction: PARTIAL ----
+   FULL statement (the property's): for every mutating query q and every list of queries qs, from
+   every reachable database d:  exec rv_fixed d q = (d', QErr e) -> obs_eq d d',  and a transaction
+   that fails (a failing query or a failure injected at the end, no panic) ends in d' with obs_eq d d'.
+   PROVED below for `liftable` queries: InsertAliases, RemoveAliases, InsertIndex, RemoveIndex and all
+   read-only queries (their primitives need no cross-component side condition), from every well-formed d.
+   MISSING for InsertNodes, InsertEdges, InsertValues, Remove, RemoveValues: their decomposition into
+   `pstep`s (C13_rollback_restores then applies) needs the side conditions of the primitives, which
+   follow from database invariants not proved here: (1) every indexed pair of an element is listed in
+   its index (`idx_has_all`, needed by remove_keys / remove_all_values / value replacement; this is
+   property C11), (2) a slot handed out by the allocator has an empty key-value list and no alias
+   (needed by insert_key_value / insert_new_alias on fresh elements; C09/C10), (3) remove_node_db
+   removes all edges of the node before the node (the node is isolated at CInsertNode time). *)
+Theorem C13_exec_failure_restores_partial :
+  forall rv, fix_rollback_replace rv = true -> fix_alias_steal_undo rv = true ->
+  forall d q d' e,
+    liftable q = true -> db_ok d -> undo d = [] -> exec rv d q = (d', QErr e) ->
+    obs_eq d d' /\ db_ok d' /\ undo d' = [].
+Proof. exact exec_failure_restores. Qed.
+Print Assumptions C13_exec_failure_restores_partial.
+
+Theorem C13_transaction_failure_restores_partial :
+  forall rv, fix_rollback_replace rv = true -> fix_alias_steal_undo rv = true ->
+  forall d qs fail_at_end,
+    Forall (fun q => liftable q = true) qs -> db_ok d -> undo d = [] ->
+    let '(d1, results, all_ok) := txn_run rv d qs [] in
+    existsb (fun r => match r with QPanic => true | _ => false end) results = false ->
+    all_ok && negb fail_at_end = false ->
+    exists d', transaction rv d qs fail_at_end = (d', results) /\ obs_eq d d' /\ db_ok d' /\ undo d' = [].
+Proof. exact transaction_failure_restores. Qed.
+Print Assumptions C13_transaction_failure_restores_partial.
+
+(* non-vacuity: the alias-stealing transaction of witness (ii) is covered, from a well-formed state *)
+Example C13_lift_example :
+  let d := fst (exec rv_fixed db_new (InsertNodes 2 (Single []) [[x61]; [x62]] (Ids []))) in
+  let qs := [InsertAliases (Ids [QId 2]) [[x61]]] in
+  Forall (fun q => liftable q = true) qs /\ db_ok d /\ undo d = [] /\
+  exists d', transaction rv_fixed d qs true = (d', [QOk 1 []]) /\ obs_eq d d'.
+Proof. exact lift_example. Qed.
+Print Assumptions C13_lift_example.
 
 (* ---- the two defects of the pinned tree (all fix flags off), repaired by fix: commits ---- *)
 
